@@ -81,6 +81,7 @@ type VC struct {
 	varIDs    map[*Term]int
 	swarDone  map[string]bool
 	cleanVars map[*Term]bool
+	products  []prodRec
 	ghostParent map[int]int
 	modelTerms []modelTerm
 }
@@ -983,4 +984,42 @@ func (vc *VC) cellStore(st *State, p VPtr, t types.Type, v Value) {
 	for i, lf := range leaves {
 		st.cells[fmt.Sprintf("%s@%d", c.ID, p.Off+lf.Off)] = VT{terms[i]}
 	}
+}
+
+type prodRec struct{ a, b, p *Term }
+
+// noteProduct records a product of two symbolic factors and states the monotonicity
+// facts that relate it to earlier products sharing a factor (the solvers' nonlinear
+// engines time out on them; these instances are linear in the product terms).
+func (vc *VC) noteProduct(a, b, p *Term) {
+	if a.IsConst() || b.IsConst() || p.op != "*" {
+		return
+	}
+	B := vc.B
+	for _, r := range vc.products {
+		if r.p == p {
+			return
+		}
+	}
+	if len(vc.products) < 40 {
+		for _, r := range vc.products {
+			for _, pair := range [][4]*Term{{a, b, r.a, r.b}, {a, b, r.b, r.a}, {b, a, r.a, r.b}, {b, a, r.b, r.a}} {
+				x, s1, y, s2 := pair[0], pair[1], pair[2], pair[3]
+				if s1 != s2 {
+					continue
+				}
+				// p = x*s, r.p = y*s
+				nonneg := B.Le(B.Int(0), s1)
+				vc.fact(B.Implies(B.And(nonneg, B.Le(x, y)), B.Le(p, r.p)))
+				vc.fact(B.Implies(B.And(nonneg, B.Le(y, x)), B.Le(r.p, p)))
+				vc.fact(B.Implies(B.And(nonneg, B.Lt(x, y)), B.Le(B.Add(p, s1), r.p)))
+				vc.fact(B.Implies(B.And(nonneg, B.Lt(y, x)), B.Le(B.Add(r.p, s1), p)))
+			}
+		}
+	}
+	// sign facts
+	vc.fact(B.Implies(B.And(B.Le(B.Int(0), a), B.Le(B.Int(0), b)), B.Le(B.Int(0), p)))
+	vc.fact(B.Implies(B.And(B.Le(B.Int(1), a), B.Le(B.Int(0), b)), B.Le(b, p)))
+	vc.fact(B.Implies(B.And(B.Le(B.Int(0), a), B.Le(B.Int(1), b)), B.Le(a, p)))
+	vc.products = append(vc.products, prodRec{a, b, p})
 }
